@@ -39,13 +39,41 @@ def idx32 (b : List (BitVec 32)) (i : Nat) : BitVec 32 := b.getD i 0#32
 end Sema.Go
 
 namespace Sema.Go
-/-- a float32 expression whose arithmetic is *not* interpreted by the model (IEEE rounding is outside
-the theorems); `eval` is used by the driver only. -/
+/-- a float32 / float64 expression whose arithmetic is *not* interpreted by the model (IEEE rounding is
+outside the theorems); `eval` / `eval64` are used by the driver only.
+
+One constructor per Go operation, operands in source order.  The tree carries no precision: the
+translator (tools/go2lean, `FloatSym`) keeps float32 and float64 apart and writes every conversion
+(`toF64` = `float64(x)` of a float32, `toF32` = `float32(x)` of a float64); `eval` evaluates a tree at
+float32, `eval64` at float64, and they change precision exactly at the two conversions.  Leaves: `lit n`
+(an integer constant, exact in both precisions for n < 2^24), `ofNat` / `ofInt` (`float32(i)` /
+`float64(i)` of an integer value), `var bits` / `var64 bits` (a float32 / float64 value given by its bit
+pattern: an input, or an untyped Go constant rounded to the nearest value by the translator). -/
 inductive FExpr where
   | lit (n : Nat) | ofNat (n : Nat)
   | add (a b : FExpr) | sub (a b : FExpr) | mul (a b : FExpr) | div (a b : FExpr)
+  | var (bits : BitVec 32) | var64 (bits : BitVec 64) | ofInt (i : Int)
+  | neg (a : FExpr) | toF64 (a : FExpr) | toF32 (a : FExpr)
+  | log10 (a : FExpr) | sqrt (a : FExpr) | sin (a : FExpr) | cos (a : FExpr) | asin (a : FExpr)
+  | min (a b : FExpr)
   deriving Repr, DecidableEq
 
+/-- Go's zero value `0.0` -/
+instance : Inhabited FExpr := ⟨.lit 0⟩
+
+/-- `math.Min` (NaN if either is NaN; -0 before +0) -/
+def fmin64 (a b : Float) : Float :=
+  if a.isNaN || b.isNaN then (0.0 / 0.0)
+  else if a < b then a else if b < a then b
+  else if a.toBits >>> 63 == 1 then a else b
+def fmin32 (a b : Float32) : Float32 :=
+  if a.isNaN || b.isNaN then (0.0 / 0.0)
+  else if a < b then a else if b < a then b
+  else if a.toBits >>> 31 == 1 then a else b
+
+mutual
+/-- the tree evaluated at float32 with Lean's `Float32` (hardware IEEE single precision; `log10`, `sin`,
+`cos`, `asin` are the C library's) -/
 def FExpr.eval : FExpr → Float32
   | .lit n => n.toFloat32
   | .ofNat n => n.toFloat32
@@ -53,6 +81,48 @@ def FExpr.eval : FExpr → Float32
   | .sub a b => a.eval - b.eval
   | .mul a b => a.eval * b.eval
   | .div a b => a.eval / b.eval
+  | .var b => Float32.ofBits b.toNat.toUInt32
+  | .var64 b => (Float.ofBits b.toNat.toUInt64).toFloat32
+  | .ofInt i => Float32.ofInt i
+  | .neg a => - a.eval
+  | .toF64 a => a.eval
+  | .toF32 a => a.eval64.toFloat32
+  | .log10 a => a.eval.log10
+  | .sqrt a => a.eval.sqrt
+  | .sin a => a.eval.sin
+  | .cos a => a.eval.cos
+  | .asin a => a.eval.asin
+  | .min a b => fmin32 a.eval b.eval
+/-- the tree evaluated at float64 -/
+def FExpr.eval64 : FExpr → Float
+  | .lit n => n.toFloat
+  | .ofNat n => n.toFloat
+  | .add a b => a.eval64 + b.eval64
+  | .sub a b => a.eval64 - b.eval64
+  | .mul a b => a.eval64 * b.eval64
+  | .div a b => a.eval64 / b.eval64
+  | .var b => (Float32.ofBits b.toNat.toUInt32).toFloat
+  | .var64 b => Float.ofBits b.toNat.toUInt64
+  | .ofInt i => Float.ofInt i
+  | .neg a => - a.eval64
+  | .toF64 a => a.eval.toFloat
+  | .toF32 a => a.eval64.toFloat32.toFloat
+  | .log10 a => a.eval64.log10
+  | .sqrt a => a.eval64.sqrt
+  | .sin a => a.eval64.sin
+  | .cos a => a.eval64.cos
+  | .asin a => a.eval64.asin
+  | .min a b => fmin64 a.eval64 b.eval64
+end
+
+/-- `var s T; for .. { s += tᵢ }`: the terms added one after the other, from the left, to Go's zero value -/
+def FExpr.sumL (l : List FExpr) : FExpr := l.foldl FExpr.add (.lit 0)
+
+/-- `math.Pi / 180` as the Go compiler stores it in a float64: the double nearest to π/180
+(0.017453292519943295…; tools/go2lean computes the pattern from the constant expression in the source) -/
+def FExpr.degToRad : FExpr := .var64 0x3f91df46a2529d39#64
+/-- `earthRadius = 6371000` (metres) -/
+def FExpr.earthRadius : FExpr := .lit 6371000
 end Sema.Go
 
 /-! ### primitives of the extended translator (tools/go2lean/ext.go)
